@@ -159,9 +159,31 @@ def apply(name, toks):
     return a(toks)
 
 
+def drop_attrs(names):
+    def f(toks):
+        out = []
+        i = 0
+        cnt = 0
+        while i < len(toks):
+            t = toks[i]
+            if t.text == "#" and i + 2 < len(toks) and toks[i + 1].text == "[" and toks[i + 2].text in names:
+                e = match_close(toks, i + 1)
+                i = e + 1
+                cnt += 1
+                continue
+            out.append(t)
+            i += 1
+        return out, cnt
+    return f
+
+
 # ---------------------------------------------------------------------------
 # rule catalogue
 # ---------------------------------------------------------------------------
+pyrule("D12.drop_thiserror_attrs", drop_attrs({"error", "from", "source"}),
+       "thiserror helper attributes inside an error enum (#[error(..)], #[from]) are dropped; the From impls are written out")
+pyrule("D12.drop_serde_attrs", drop_attrs({"serde", "serde_as", "cfg_attr"}),
+       "serde helper attributes inside a type definition are dropped (default-feature serde impls are not verified)")
 
 rule("D6.starts_with_lit",
      "$recv . starts_with ( $l:str )",
@@ -222,6 +244,36 @@ rule("D6.substr_to_string",
      "$recv [ $(a) .. $(b) ] . to_string ( )",
      "shim_substr_to_string ( $recv , $(a) , $(b) )",
      "s[a..b].to_string(): names the temporary slice so that its contract can be used")
+
+rule("D6.rfind_char",
+     "$recv . rfind ( $c:char )",
+     "shim_rfind_char ( $recv , $c )",
+     "str::rfind(char): byte index of the last occurrence")
+
+rule("D6.find_char",
+     "$recv . find ( $c:char )",
+     "shim_find_char ( $recv , $c )",
+     "str::find(char): byte index of the first occurrence")
+
+rule("D6.split_comma",
+     "$recv . split ( ',' )",
+     "shim_split_comma ( $recv )",
+     "str::split(',') collected into a Vec<&str> (iteration order preserved)")
+
+rule("D8.format3",
+     "format ! ( \"{}{}{}\" , $a:id , $b:id , $c:id )",
+     "shim_concat3 ( $a , $b , $c )",
+     "format!(\"{}{}{}\", a, b, c) for three &str: their concatenation")
+
+rule("D6.str_lt",
+     "pkg1 < pkg2",
+     "shim_str_lt ( pkg1 , pkg2 )",
+     "<str as PartialOrd>::lt : byte-wise lexicographic order")
+
+rule("D6.eq_self_field_str",
+     "self . $f:id == $b:id",
+     "shim_string_eq_str ( & self . $f , $b )",
+     "<String as PartialEq<&str>>::eq (vstd specifies only &str == &str)")
 
 rule("D6.take_digits",
      "$recv . chars ( ) . take_while ( char :: is_ascii_digit ) . collect ( )",
